@@ -69,6 +69,11 @@ def specP : P String := do
       -- successive consumed due instants enumerate the union of occurrences after `start`
       let tms ← listOf timingP; let start ← int; let dues ← listOf int
       pure (okB (enumB tms start dues))
+  | "nextpast" => do
+      -- the earliest occurrence of any of the listed times strictly after `last` lies past `stop`
+      -- (the only situation in which the stop may retire the job after the run that consumed `last`)
+      let tms ← listOf timingP; let last ← int; let stop ← int
+      pure (okB (decide (stop < unionNext tms last)))
   | "skipdue" => do
       let tms ← listOf timingP; let t ← int; let g ← int; let due ← int
       pure (okB (skipDueB tms t g due))
